@@ -23,11 +23,43 @@ for m in [m for m in sys.modules if m == "metapype" or m.startswith("metapype.")
 
 logging.disable(logging.CRITICAL)
 
+# Import the library under a frozen boot clock and a fixed host id, on CPython's pure-Python
+# uuid1 path: whatever it computes at import time (a module-level uuid, a timestamp) is then
+# the same in every interpreter, like everything a run does later under the simulated clock.
+import random as _random  # noqa: E402
+import time as _time  # noqa: E402
+import uuid as _uuid  # noqa: E402
+
+_BOOT = {"gts": _uuid._generate_time_safe, "uc": getattr(_uuid, "_UuidCreate", None), "node": getattr(_uuid, "_node", None),
+         "time_ns": _time.time_ns, "time": _time.time, "grb": _random.getrandbits, "last": _uuid._last_timestamp}
+_uuid._generate_time_safe = None
+if hasattr(_uuid, "_UuidCreate"):
+    _uuid._UuidCreate = None
+_uuid._node = 0x02005E10A0B1
+_uuid._last_timestamp = None
+_boot_now = [1_600_000_000 * 10**9]
+
+
+def _boot_time_ns():
+    _boot_now[0] += 1000
+    return _boot_now[0]
+
+
+_boot_rng = _random.Random(0xB007)
+_time.time_ns = _boot_time_ns
+_time.time = lambda: _boot_time_ns() / 1e9
+_random.getrandbits = _boot_rng.getrandbits
+
 import metapype  # noqa: E402
 from metapype.model import node as node_mod  # noqa: E402
 from metapype.model import metapype_io, mp_io  # noqa: E402
 from metapype.eml import validate, references, export, evaluate, rule, names  # noqa: E402
 from metapype.eml.exceptions import MetapypeRuleError  # noqa: E402
+
+_time.time_ns, _time.time, _random.getrandbits = _BOOT["time_ns"], _BOOT["time"], _BOOT["grb"]
+_uuid._generate_time_safe, _uuid._node, _uuid._last_timestamp = _BOOT["gts"], _BOOT["node"], _BOOT["last"]
+if hasattr(_uuid, "_UuidCreate"):
+    _uuid._UuidCreate = _BOOT["uc"]
 
 if not os.path.realpath(metapype.__file__).startswith(SRC + os.sep):
     raise RuntimeError(
